@@ -9,7 +9,10 @@ monitor       : kernpy's tree against the independent reference spine-path model
 """
 import itertools
 import json
+import os
 import random
+import shutil
+import tempfile
 
 from harness import core, docs, engine
 
@@ -100,8 +103,21 @@ def layout_text(hdrs, oprows, rng):
     return '\n'.join(lines) + '\n'
 
 
-def check_tree(kp, text, label):
-    """violations of the property on kernpy for one text that obeys the spine-path rules (or has a surplus row)"""
+def load_via_file(kp, text):
+    """kp.load on a real temporary file holding exactly the bytes of the text"""
+    tmp = tempfile.mkdtemp(prefix='kvc02_')
+    try:
+        path = os.path.join(tmp, 'in.krn')
+        with open(path, 'w', encoding='utf-8', newline='') as f:
+            f.write(text)
+        return kp.load(path)
+    finally:
+        shutil.rmtree(tmp, ignore_errors=True)
+
+
+def check_tree(kp, text, label, via='string'):
+    """violations of the property on kernpy for one text that obeys the spine-path rules (or has a surplus row);
+    via = 'string' (kp.loads) or 'file' (kp.load of a file with these bytes: the other line reader)"""
     viol = []
     lines = [l for l in text.splitlines() if l != '']
     rows = [l.split('\t') for l in lines]
@@ -112,10 +128,10 @@ def check_tree(kp, text, label):
     except ValueError as e:
         ref, ref_err = None, str(e)
     try:
-        doc, errors = kp.loads(text)
+        doc, errors = kp.loads(text) if via == 'string' else load_via_file(kp, text)
     except Exception as e:
         if ref_err is None:
-            viol.append(('rejects-valid', f'loads raised {type(e).__name__} on a text that obeys the spine-path rules', {'text': text}))
+            viol.append(('rejects-valid', f'import raised {type(e).__name__} on a text that obeys the spine-path rules', {'text': text}))
         return viol, None, 'raise:' + type(e).__name__
     dump = 'ok:' + docs.impl_show_doc(kp, doc, errors)
     if ref_err is not None:
@@ -178,6 +194,17 @@ def check_tree(kp, text, label):
     return viol, doc, dump
 
 
+def file_record(kp, text, label, bad, string_dump):
+    """the same text through the file line reader: same tree rules, and the same document as the string import"""
+    viol, _, dump = check_tree(kp, text, label, via='file')
+    viol = [(c, 'file reader: ' + s, dict(w, via='file')) for c, s, w in viol]
+    if dump != string_dump:
+        viol.append(('file-equals-string', 'file reader: kp.load of a file with these bytes does not build the document kp.loads builds',
+                     {'text': text, 'via': 'file'}))
+    return engine.rec(label + '-file', impl=dump, req=('import_file', [docs.C1.join(bad), text]), viol=viol, kind=label + '-file',
+                      key=('file', text))
+
+
 def worker(kp, job):
     kind, payload = job
     records = []
@@ -187,6 +214,8 @@ def worker(kp, job):
         bad = docs.bad_cells(kp, text)
         records.append(engine.rec(label, impl=dump, req=('import', [docs.C1.join(bad), text]), viol=viol, kind=label,
                                   key=text, sample={'kind': label, 'text': text} if hash(text) % 97 == 0 else None))
+        if label in ('literal', 'surplus'):
+            records.append(file_record(kp, text, label, bad, dump))
     elif kind == 'gen':
         seed, idx = payload
         rng = random.Random(seed * 1000003 + idx)
@@ -208,6 +237,8 @@ def worker(kp, job):
             text = g.nl.join(rows)
         viol, doc, dump = check_tree(kp, text, 'generated')
         bad = docs.bad_cells(kp, text)
+        if idx % 2 == 0:
+            records.append(file_record(kp, text, 'generated', bad, dump))
         records.append(engine.rec('generated', impl=dump, req=('import', [docs.C1.join(bad), text]), viol=viol,
                                   kind='generated:' + ','.join(sorted(g.flags & {'split', 'join', 'comment-inside'})), key=text,
                                   sample={'kind': 'generated', 'text': text} if idx % 41 == 0 else None))
